@@ -8,11 +8,12 @@ out=/verif/seeded/$name
 demo=$wt/SEED/demo.py; run="/venv/bin/python"
 [ -f $demo ] || { demo=$wt/SEED/demo.sh; run="sh"; }
 cd $wt
-git diff --quiet && git apply SEED/patch.diff
+# the worktree is brought to exactly "clean tree + SEED/patch.diff" (never git stash: the stash is shared by all worktrees)
+git checkout -q -- src && git apply SEED/patch.diff || { echo "patch does not apply to the clean tree"; exit 2; }
 echo "== with change:"; PYTHONPATH=$wt/src PYTHONDONTWRITEBYTECODE=1 timeout 600 $run $demo > /tmp/intake_with.log 2>&1; rc_with=$?; tail -3 /tmp/intake_with.log
-git stash -q
+git apply -R SEED/patch.diff
 echo "== without change:"; PYTHONPATH=$wt/src PYTHONDONTWRITEBYTECODE=1 timeout 600 $run $demo > /tmp/intake_without.log 2>&1; rc_without=$?; tail -3 /tmp/intake_without.log
-git stash pop -q
+git apply SEED/patch.diff
 suite=$(cd $wt && /venv/bin/python -m pytest -q -p no:cacheprovider --continue-on-collection-errors 2>&1 | tail -1)
 echo "rc with=$rc_with without=$rc_without suite: $suite"
 if [ "$rc_with" != "0" ] && [ "$rc_without" = "0" ]; then
